@@ -2206,8 +2206,12 @@ func (g *gen) rotationScenario(idx int) {
 						break
 					}
 				}
-			case x < 13:
-				g.emit(fmt.Sprintf("state %d 1", id), "state", false)
+			case x < 13: // every host up again
+				for _, i := range g.w.sortedIDs() {
+					if !g.w.hosts[i].IsUp() {
+						g.emit(fmt.Sprintf("state %d 1", i), "state", false)
+					}
+				}
 			case x < 16: // a node joins
 				g.emit(fmt.Sprintf("add %d", newHost(r.Intn(3))), "add", true)
 			case x < 18:
